@@ -48,6 +48,13 @@ META = {
             'padding-weight defect of fetchSuffix (1.0_cvs = 1.0 instead of >) as a failing pair; the model mirrors the repaired code (padding weight 4). '
             'NOT DISCHARGED / not formalised: the remaining published rules of Alpine, and those of Packagist and Maven; that the readers of the oracle invert render is proved for semver, Debian, RubyGems and CRAN '
             '(C07_semver_specParse_render, C07_spec_readers) and checked on examples only for the NuGet, PyPI, Red Hat and Alpine-suffix readers. '
+            'ECOSYSTEM NAMES: Spec/Semantic/Ecosystems.lean carries the specification\'s OWN table of the 16 supported names and the rule each follows (from the property text / the '
+            'ecosystems\' documentation, not from parse.go) and documented example orderings per rule; C07_dispatch_table proves that the switch of semantic.Parse (model) is exactly that table for ALL '
+            'strings, C07_witnesses_hold that the examples hold, C07_witnesses_discriminate that for every rule and every OTHER rule at least one example comes out differently (so a name routed to a '
+            'different comparator cannot satisfy its examples). The stream runs every name of the table and ~40 near-miss spellings (case variants, versioned names such as Debian:11, other OSV '
+            'ecosystems) against all example pairs in both tiers; the driver prints sup= (documented or not), spec= under the DOCUMENTED rule of the name and wit= for the name\'s own examples, and the oracle '
+            'reports a documented name that is rejected, an undocumented one that is accepted, and an example or published-rule verdict the implementation does not give. MustParse is run on both strings of '
+            'every pair (mp=): it must return exactly when Parse does (a version that compares like Parse\'s) and panic with Parse\'s error otherwise. '
             'KNOWN FINDINGS are filed narrowly: only a transitivity verdict, on a triple with a member outside the proved domain (driver flag kf) that ALSO has the recorded shape (Alpine: '
             'leading zero in a later component; Maven: a qualifier introduced by "."), and only when the implementation answers exactly as the model on that row; every other verdict on such a '
             'triple is reported as a violation (coverage.known_class_rows counts the filed rows). '
@@ -65,12 +72,12 @@ THEOREMS = ([P + 'C07_%s_total' % f for f in FAMS] + [P + 'C07_%s_refl' % f for 
             [P + 'C07_packagist_trans_partial', P + 'C07_packagist_trans_fails', P + 'C07_alpine_trans_partial', P + 'C07_alpine_trans_fails',
              P + 'C07_maven_trans_partial', P + 'C07_maven_trans_fails', P + 'C07_all_total', P + 'C07_all_refl', P + 'C07_all_antisymm', P + 'C07_eco_total', P + 'C07_unsupported',
              P + 'C07_semver_spec', P + 'C07_debian_spec', P + 'C07_pypi_spec', P + 'C07_rubygems_spec', P + 'C07_nuget_spec', P + 'C07_cran_spec', P + 'C07_redhat_spec', P + 'C07_alpine_suffix_spec', P + 'C07_spec_readers', P + 'C07_semver_hyphen_identifier', P + 'C07_semver_specParse_render', P + 'C07_fuel_adequate', P + 'C07_cran_nonnumeric', P + 'C07_packagist_long_number',
-             P + 'C07_go_sites_in_range', P + 'C07_grammar_accepted', P + 'C07_preorder', P + 'C07_total_preorder_on', P + 'C07_rank_exists', P + 'C07_total_preorder_on_accepted', P + 'C07_maven_no_rank'] +
+             P + 'C07_dispatch_table', P + 'C07_witnesses_hold', P + 'C07_witnesses_discriminate', P + 'C07_go_sites_in_range', P + 'C07_grammar_accepted', P + 'C07_preorder', P + 'C07_total_preorder_on', P + 'C07_rank_exists', P + 'C07_total_preorder_on_accepted', P + 'C07_maven_no_rank'] +
             [P + 'C07_%s_render_accepted' % f for f in ['semver', 'nuget', 'cran', 'debian', 'rubygems', 'redhat', 'pypi']])
 
 ECO_FAM = {'npm': 'semver', 'crates.io': 'semver', 'Go': 'semver', 'Hex': 'semver', 'Pub': 'semver', 'ConanCenter': 'semver', 'NuGet': 'nuget', 'CRAN': 'cran',
            'Debian': 'debian', 'Ubuntu': 'debian', 'RubyGems': 'rubygems', 'Red_Hat': 'redhat', 'Packagist': 'packagist', 'PyPI': 'pypi', 'Alpine': 'alpine', 'Maven': 'maven'}
-KEYS = ['r', 'rr', 'ra', 'rb', 'acc', 'ab', 'bc', 'ac', 'ba', 'cb', 'ca']
+KEYS = ['r', 'rr', 'ra', 'rb', 'acc', 'mp', 'ab', 'bc', 'ac', 'ba', 'cb', 'ca']
 FLIP = {'lt': 'gt', 'gt': 'lt', 'eq': 'eq'}
 RULES = {'semver': 'semver.org §11', 'debian': 'deb-version(7)', 'pypi': 'PEP 440', 'rubygems': 'Gem::Version', 'nuget': 'NuGet docs / SemVer 2', 'cran': 'R package_version', 'redhat': 'rpm-version(7) / rpmvercmp',
          'alpine': 'documented Alpine suffix order alpha<beta<pre<rc<(none)<cvs<svn<git<hg<p on versions that differ in their suffixes only'}
@@ -85,6 +92,23 @@ def oracle(case, fi, fm):
         return 'Parse/CompareStr panicked (%s)' % ' '.join('%s=%s' % kv for kv in fi.items())
     acc = fi.get('acc', '')
     if t[0] == 'cmp':
+        # the specification's own ecosystem table (Spec/Semantic/Ecosystems.lean): a documented name must be supported, any other must not
+        if fm.get('sup') == '1' and 'unsup' in res:
+            return 'ecosystem %s is a documented ecosystem (property text) but Parse answers ErrUnsupportedEcosystem' % t[1]
+        if fm.get('sup') == '0' and any(x != 'unsup' for x in res):
+            return 'ecosystem name %r is not a documented ecosystem but Parse accepts it (%s)' % (t[1], ' '.join('%s=%s' % kv for kv in fi.items()))
+        # MustParse returns exactly when Parse does, and panics with Parse's error otherwise
+        mp = fi.get('mp', '')
+        if 'p' in mp or 'x' in mp:
+            return 'MustParse disagrees with Parse or panics with a non-error value (mp=%s acc=%s)' % (mp, acc)
+        if len(mp) == 2 and len(acc) == 2 and fm.get('sup') == '1':
+            for i in (0, 1):
+                if (acc[i] == '1') != (mp[i] == 'k'):
+                    return 'MustParse does not mirror Parse: acc=%s mp=%s' % (acc, mp)
+        if len(mp) == 2 and fm.get('sup') == '0' and mp != 'uu':
+            return 'MustParse on an unsupported ecosystem does not panic with ErrUnsupportedEcosystem (mp=%s)' % mp
+        if 'wit' in fm and fi.get('r') != fm['wit']:
+            return 'documented example of ecosystem %s: the documentation orders this pair %s, the implementation answers %s' % (t[1], fm['wit'], fi.get('r'))
         if len(acc) != 2:
             return None
         if acc[0] == '1' and fi.get('ra') != 'eq':
@@ -205,7 +229,7 @@ def _shard(args):
                 out['n_known'][key] = out['n_known'].get(key, 0) + 1
                 continue
             fam = ECO_FAM.get(case.split(' ')[1])
-            if fam in KNOWN and '1' in fm.get('kf', ''):
+            if fam in KNOWN and '1' in fm.get('kf', '') and case.startswith('tri '):
                 verdict += ' [a member of the triple is outside the proved domain, but this is NOT the recorded finding %s: %s]' % (
                     KNOWN[fam], 'the implementation does not behave as the model' if not agree else 'not a transitivity verdict on the recorded shape')
             out['n_viol'] += 1
